@@ -434,6 +434,16 @@ def p1_exact_conversions(ctx: Ctx):
     rets = [norm(s.value) for s in walk_no_nested(fn) if isinstance(s, ast.Return)]
     good = rets == ['Fraction(0)', 'Fraction(self.m << self._exp)', 'Fraction(self.m, 1 << -self._exp)']
     ctx.check(good, REALS, fn, q, 'as_rational = m * 2**exp with signed significand m', f'got {rets}')
+    # round(x, ndigits): a decimal position has no exact binary value, and an ignored ndigits returns another number
+    fn = ctx.fn(REALS, 'RealFloat.__round__')
+    nd = [a.arg for a in fn.args.args][1:]
+    r = decide(repo, REALS, fn.body, {f'{nd[0]} is not None': True, f'{nd[0]} is None': False}, lenient=True) if nd else ('raise', None, None)
+    ctx.check(r[0] == 'raise', REALS, r[2] or fn, 'RealFloat.__round__', 'round(x, ndigits) with a digit count is refused (never silently an integer)', f'got {r[0]} {r[1]!r}')
+    fn = ctx.fn(FLOATS, 'Float.__round__')
+    takes = bool(fn.args.vararg or fn.args.kwarg or len(fn.args.args) > 1)
+    fwd = [k for k in calls_in(fn) if (call_name(k) or '').endswith('.__round__')]
+    ok = not takes or (len(fwd) == 1 and (any(isinstance(a, ast.Starred) for a in fwd[0].args) or len(fwd[0].args) == len(fn.args.args) - 1 > 0))
+    ctx.check(ok, FLOATS, fn, 'Float.__round__', 'whatever Float.__round__ accepts it hands on to RealFloat.__round__', 'arguments accepted and dropped')
     # truth value: RealFloat is a numbers.Rational, whose __bool__ is `self != 0`; Float is not one and has to say it itself
     # (without a __bool__ every object is true, a zero Float included)
     fcls = repo.cls(FLOATS, 'Float')
@@ -518,6 +528,9 @@ RULES = [
 from ..selftest import Mutant  # noqa: E402
 
 MUTANTS = [
+    Mutant('round-ignores-ndigits', REALS, "        if ndigits is not None:\n            raise NotImplementedError('rounding to decimal digits cannot be implemented exactly')\n", "", 'C05.P1',
+           'finding F56 before its repair: round(RealFloat(2.5), 1) is the int 2'),
+    Mutant('float-round-swallows-arguments', FLOATS, "        return self._real.__round__(*args, **kwargs)", "        return self._real.__round__()", 'C05.P1'),
     Mutant('float-always-true', FLOATS, "    def __bool__(self):\n        \"\"\"Like a native number: false exactly for a zero (NaN is true).\"\"\"\n        return not self.is_zero()\n\n", "", 'C05.P1',
            'finding F55 before its repair: bool(Float(c=0)) is True'),
     Mutant('float-false-for-nan-too', FLOATS, "        return not self.is_zero()\n\n    def __float__", "        return not self._real.is_zero()\n\n    def __float__", 'C05.P1',
